@@ -109,9 +109,9 @@ PROPS = {
                    'once and no all-old match; (b) run_rules_impl stamps every rule it ran with the timestamp of the run; (c) run_rules_inner, flush_updates_inner '
                    'and rebuild strictly advance the timestamp on every successful path, rebuild or not; (d) a row rewritten by the merge callback carries the '
                    'incoming timestamp; (e) the dirty-id closure handed to the row refresh is closed under container nesting (unit cont); (f) (unit tblrebuild) every row re-inserted by the non-incremental table rebuild carries next_ts in its sort column (the insert_row! macro, expanded mechanically), so it counts as new; (g) (unit insert) the offsets vector that the timestamp-range search reads describes the sort column of every live row after serial_insert. Equality of whole databases under --naive (a two-run relation) is not stated.',
-        level_note='Trusted: RuleSetBuilder::add_rule_from_cached_plan restricts the cached rule by the given constraints; rows re-inserted by the INCREMENTAL table rebuild carry next_ts '
-                   '(core-relations rebuild.rs; assumed; the non-incremental path is proved); Database contracts as for C04; merge-unit assumptions as for C05.',
-        assumptions=['engine-level re-timestamping during rebuild and the join engine honouring the constraints are assumed'],
+        level_note='Trusted: RuleSetBuilder::add_rule_from_cached_plan restricts the cached rule by the given constraints; every staging loop of table/rebuild.rs is proved to stamp next_ts (unit tblrebuild); which rows reach those loops (the rebuilder scans, the rebuild index) '
+                   'and that the staged rows are then merged are assumed; Database contracts as for C04; merge-unit assumptions as for C05.',
+        assumptions=['the join engine honouring the timestamp constraints and the rebuilder scans feeding the table rebuild are assumed'],
     ),
     'C16': dict(
         units=['disp', 'swt', 'index', 'insert', 'idxcache'],
